@@ -257,9 +257,9 @@ namespace bloch::cli {
 
                 // By default we suppress echo when taking many shots, unless the user
                 // explicitly asks for it via --echo=all.
-                bool echoAll =
-                    echoOpt.empty() ? (!shotsProvided || shots == 1) : (echoOpt == "all");
-                if (shotsProvided && shots > 1 && echoOpt.empty())
+                bool echoAuto = echoOpt.empty() || echoOpt == "auto";
+                bool echoAll = echoAuto ? (!shotsProvided || shots == 1) : (echoOpt == "all");
+                if (shotsProvided && shots > 1 && echoAuto)
                     bloch::support::blochInfo(0, 0,
                                               "suppressing echo; to view them use --echo=all");
 
